@@ -154,6 +154,38 @@ func (r *crun) apply(op harness.Op, idx int) {
 				}
 			}
 		}
+	case "resubmit":
+		// a client hands a transaction it already submitted to the same node again (it has seen no result
+		// yet) and, right behind it, fresh ones: the repeated one may sit in a proposal that is still in
+		// flight, and the fresh ones are batched behind it
+		n := r.node(op.N)
+		if !n.Alive {
+			return
+		}
+		var again *common.VersionedTransaction
+		for j := idx - 1; j >= 0 && again == nil; j-- {
+			prev := r.plan.Ops[j]
+			if prev.Kind == "deposit" && r.node(prev.N) == n && r.txOf[j] != nil && !c.FinalizedOn(n, r.txOf[j].PayloadHash()) {
+				again = r.txOf[j]
+			}
+		}
+		if again == nil {
+			r.out.Probes["resubmit_nothing_pending"]++
+			return
+		}
+		if _, err := c.Submit(n, again); err != nil {
+			r.out.Probes["resubmit_rejected"]++
+			return
+		}
+		r.out.Probes["resubmitted_while_pending"]++
+		for k := int64(0); k < 1+op.B%3; k++ {
+			tx, coin := c.MakeDeposit(assetTable[int(op.A+k)%len(assetTable)], common.NewIntegerFromString(fmt.Sprintf("%d.5", 1+(op.A+k)%9)), fmt.Sprintf("ext-%s-%d", opLabel(op, idx), k), 0, []int{int(k) % 4}, 1)
+			if k == 0 {
+				r.coins[idx] = []*cluster.Coin{coin}
+				r.txOf[idx] = tx
+			}
+			r.submit(n, tx, true)
+		}
 	case "transfer":
 		src := r.pickCoin(int(op.A))
 		if src == nil {
